@@ -35,8 +35,26 @@ def collect_index_terms(exprs, limit=40):
     return out[:limit]
 
 
-def expand(ob, extra_terms=()):
-    """quantifier-free hypothesis list and negated goal for an obligation"""
+def const_ids(e, memo):
+    k = e.get_id()
+    if k in memo: return memo[k]
+    out = set(); seen = set(); st = [e]
+    while st:
+        x = st.pop()
+        if x.get_id() in seen: continue
+        seen.add(x.get_id())
+        if z3.is_app(x) and x.num_args() == 0 and x.decl().kind() == z3.Z3_OP_UNINTERPRETED: out.add(x.get_id())
+        st.extend(x.children())
+    memo[k] = out
+    return out
+
+
+_cid_memo = {}
+
+
+def expand(ob, extra_terms=(), relevant=False):
+    """quantifier-free hypothesis list and negated goal for an obligation.
+    relevant=True keeps only the hypotheses in the cone of influence of the goal (a weakening: sound for 'unsat')"""
     hyps = []; qs = []
     for p in ob.pc + list(ob.hyps):
         if isinstance(p, QForall): qs.append(p)
@@ -47,6 +65,29 @@ def expand(ob, extra_terms=()):
         ks = [z3.Int('sk!%d' % next(_skolem)) for _ in range(goal.arity)]
         sk = ks
         goal = goal.fn(*ks)
+    if relevant or qs:
+        S = set(const_ids(goal, _cid_memo))
+        hc = [const_ids(h, _cid_memo) for h in hyps]
+        qc = [set(s_.get_id() for s_ in q.syms) for q in qs]
+        keep = [False] * len(hyps); keepq = [not q.syms for q in qs]
+        changed = True
+        while changed:
+            changed = False
+            for i, c in enumerate(hc):
+                if not keep[i] and (c & S or not c):
+                    keep[i] = True
+                    if c - S: S |= c; changed = True
+            for i, c in enumerate(qc):
+                if not keepq[i] and c & S:
+                    keepq[i] = True; changed = True
+                    # a quantified fact links its symbols with whatever its body mentions: instantiate once to find out
+                    try:
+                        probe = qs[i].fn(*[z3.Int('probe!%d' % j) for j in range(qs[i].arity)])
+                        S |= const_ids(probe, _cid_memo)
+                    except Exception:
+                        pass
+        if relevant: hyps = [h for h, k_ in zip(hyps, keep) if k_]
+        qs = [q for q, k_ in zip(qs, keepq) if k_]     # quantified facts outside the cone of influence are never instantiated
     if qs:
         terms = list(sk) + list(extra_terms) + list(ob.info.get('inst', []))
         terms += collect_index_terms(hyps + [goal])
@@ -61,6 +102,39 @@ def expand(ob, extra_terms=()):
     return hyps, goal
 
 
+_IMUL = None
+
+
+def abstract_nl(exprs):
+    """replace non-linear integer products by an uninterpreted function (sound for validity: every model of the
+    original formulas is a model of the abstraction with imul read as multiplication)"""
+    global _IMUL
+    if _IMUL is None: _IMUL = z3.Function('imul', z3.IntSort(), z3.IntSort(), z3.IntSort())
+    memo = {}
+
+    def rb(e):
+        k = e.get_id()
+        if k in memo: return memo[k]
+        if not z3.is_app(e) or e.num_args() == 0:
+            memo[k] = e; return e
+        ch = [rb(c) for c in e.children()]
+        if e.decl().kind() == z3.Z3_OP_MUL and z3.is_int(e):
+            nums = [c for c in ch if z3.is_int_value(c)]
+            syms = sorted([c for c in ch if not z3.is_int_value(c)], key=lambda t: t.get_id())
+            if len(syms) >= 2:
+                acc = syms[0]
+                for t in syms[1:]: acc = _IMUL(acc, t)
+                for c in nums: acc = c * acc
+                memo[k] = acc; return acc
+        try:
+            r = e.decl()(*ch)
+        except Exception:
+            r = e
+        memo[k] = r
+        return r
+    return [rb(e) for e in exprs]
+
+
 def to_smt2(hyps, goal, get_values=()):
     s = z3.Solver()
     for h in hyps: s.add(h)
@@ -69,7 +143,24 @@ def to_smt2(hyps, goal, get_values=()):
     txt = txt.replace('(check-sat)', '')
     out = '(set-logic ALL)\n(set-option :produce-models true)\n' + txt + '\n(check-sat)\n'
     if get_values:
-        out += '(get-value (%s))\n' % ' '.join(t.sexpr() for t in get_values)
+        # only terms whose symbols are declared in this query can be asked for
+        declared = set()
+        seen = set()
+        def walk(x):
+            if x.get_id() in seen: return
+            seen.add(x.get_id())
+            if z3.is_const(x) and x.decl().kind() == z3.Z3_OP_UNINTERPRETED: declared.add(x.get_id())
+            for c in x.children(): walk(c)
+        for h in list(hyps) + [goal]: walk(h)
+        def ok(t):
+            s2 = set(); st = [t]
+            while st:
+                x = st.pop()
+                if z3.is_const(x) and x.decl().kind() == z3.Z3_OP_UNINTERPRETED and x.get_id() not in declared: return False
+                st.extend(x.children())
+            return True
+        gv = [t for t in get_values if ok(t)]
+        if gv: out += '(get-value (%s))\n' % ' '.join(t.sexpr() for t in gv)
     return out
 
 
